@@ -36,6 +36,23 @@ def _registered_key_sources(fn, table):
             if norm(e.elt.elts[0]) != norm(e.generators[0].target):
                 probs.append('service table keyed by %s' % norm(e.elt.elts[0]))
             return norm(e.generators[0].iter)
+        if isinstance(e, ast.Name):
+            # a local mapping built beforehand: by one of the forms above, or empty and filled by a loop of stores
+            binds = [n for n in ast.walk(fn.node) if isinstance(n, ast.Assign) and len(n.targets) == 1 and norm(n.targets[0]) == e.id]
+            if len(binds) == 1:
+                v = binds[0].value
+                if (isinstance(v, ast.Dict) and not v.keys) or (isinstance(v, ast.Call) and norm(v.func) == 'dict' and not v.args and not v.keywords):
+                    for lp in ast.walk(fn.node):
+                        if isinstance(lp, ast.For):
+                            sts = [n for n in ast.walk(lp) if isinstance(n, ast.Assign) and any(
+                                isinstance(t, ast.Subscript) and norm(t.value) == e.id for t in n.targets)]
+                            if sts:
+                                t = next(t for t in sts[0].targets if isinstance(t, ast.Subscript) and norm(t.value) == e.id)
+                                if norm(t.slice) != norm(lp.target):
+                                    probs.append('service table keyed by %s' % norm(t.slice))
+                                return norm(lp.iter)
+                    return None
+                return of_mapping(v)
         return None
     for n in ast.walk(fn.node):
         if isinstance(n, ast.Call) and norm(n.func) == tname + '.update' and n.args:
@@ -124,6 +141,23 @@ def run(repo, rep):
     elif not counts or [norm(a) for a in counts[0].args] != [sp, '2']:
         probs.append('ids are generated by %s, expected count(start, 2)' % (norm(counts[0]) if counts else 'nothing'))
     dc = [n for n in ast.walk(bld.node) if isinstance(n, ast.DictComp)]
+    if not dc:
+        # the same comprehension written as a loop: ``d = {}; for a, b in zip(..): d[K] = V; return d``
+        for lp_ in [n for n in ast.walk(bld.node) if isinstance(n, ast.For)]:
+            if isinstance(lp_.iter, ast.Call) and norm(lp_.iter.func) in ('zip', 'six.moves.zip') and isinstance(lp_.target, ast.Tuple) \
+                    and not lp_.orelse and not any(isinstance(n, (ast.Break, ast.Continue, ast.Return)) for n in ast.walk(lp_)):
+                stores_ = [n for n in ast.walk(lp_) if isinstance(n, ast.Assign) and len(n.targets) == 1
+                           and isinstance(n.targets[0], ast.Subscript)]
+                # locals of the body that only name parts of the entry are substituted (``sop = uid.UID(sop_class)``)
+                loc_ = {norm(n.targets[0]): n.value for n in lp_.body if isinstance(n, ast.Assign) and len(n.targets) == 1
+                        and isinstance(n.targets[0], ast.Name)}
+                rets_ = [n for n in ast.walk(bld.node) if isinstance(n, ast.Return) and n.value is not None]
+                if len(stores_) == 1 and rets_ and all(norm(r_.value) == norm(stores_[0].targets[0].value) for r_ in rets_):
+                    from ..layout import _subst_names
+                    val_ = _subst_names(stores_[0].value, loc_) if loc_ else stores_[0].value
+                    key_ = _subst_names(stores_[0].targets[0].slice, loc_) if loc_ else stores_[0].targets[0].slice
+                    dc = [ast.DictComp(key=key_, value=val_,
+                                       generators=[ast.comprehension(target=lp_.target, iter=lp_.iter, ifs=[], is_async=0)])]
     loops_b = [n for n in ast.walk(bld.node) if isinstance(n, ast.For) and norm(n.iter) == bld.params[1]]
     if not dc and loops_b:
         # the same batch built by an explicit loop: one id drawn from the generator per SOP class, stored under that id
@@ -160,7 +194,7 @@ def run(repo, rep):
     else:
         d = dc[0]
         g = d.generators[0]
-        if not (isinstance(g.iter, ast.Call) and norm(g.iter.func) == 'zip' and isinstance(g.target, ast.Tuple)):
+        if not (isinstance(g.iter, ast.Call) and norm(g.iter.func) in ('zip', 'six.moves.zip') and isinstance(g.target, ast.Tuple)):
             probs.append('SOP classes and ids are not paired by zip')
         else:
             names = [norm(x) for x in g.target.elts]
@@ -306,6 +340,12 @@ def run(repo, rep):
     if ys_:
         lp_, y_ = ys_[0]
         tgt, it_node, elt = lp_.target, lp_.iter, y_.value
+        # locals of the loop body that only name parts of the item (``abstract_syntax = pdu.AbstractSyntaxSubItem(..)``)
+        loc_ = {norm(n.targets[0]): n.value for n in lp_.body if isinstance(n, ast.Assign) and len(n.targets) == 1
+                and isinstance(n.targets[0], ast.Name)}
+        if loc_:
+            from ..layout import _subst_names
+            elt = _subst_names(elt, loc_)
     elif comps_:
         tgt, it_node, elt = comps_[0].generators[0].target, comps_[0].generators[0].iter, comps_[0].elt
     else:
